@@ -111,6 +111,24 @@ type hQuery struct {
 	Path string `json:"path"`
 	Data string `json:"data,omitempty"` // hex
 	H    int64  `json:"h,omitempty"`
+	// Tmpl builds well-formed query parameters instead of Data: "page" = {Page: A, Limit: B}, "addr" = the address of
+	// pool key A (100+i = module account i)
+	Tmpl string `json:"tmpl,omitempty"`
+	A    int    `json:"a,omitempty"`
+	B    int    `json:"b,omitempty"`
+}
+
+// queryData: the request data of a generated query
+func (ch *chain) queryData(q *hQuery) []byte {
+	switch q.Tmpl {
+	case "page":
+		bz, _ := simCdc.MarshalJSON(postypes.NewQueryValidatorsParams(q.A, q.B))
+		return bz
+	case "addr":
+		bz, _ := simCdc.MarshalJSON(postypes.NewQueryValidatorParams(ch.addrOf(q.A)))
+		return bz
+	}
+	return unhex(q.Data)
 }
 
 type hBlock struct {
@@ -553,7 +571,7 @@ func (ch *chain) run(o chainOracle) *Violation {
 			q := &b.Queries[qi]
 			ci := &callInfo{Kind: "query", Height: h, Time: ch.now, BlockIx: bi, TxIx: qi}
 			ci.Before = ch.takeBefore()
-			ci.Panic = safeCall(func() { ci.Query = ch.app.Query(abci.RequestQuery{Path: q.Path, Data: unhex(q.Data), Height: q.H}) })
+			ci.Panic = safeCall(func() { ci.Query = ch.app.Query(abci.RequestQuery{Path: q.Path, Data: ch.queryData(q), Height: q.H}) })
 			if ci.Panic == nil {
 				ci.After = ch.viewAfter()
 			}
